@@ -344,6 +344,46 @@ def rule_r8(facts, col, rule_id="C02.R8"):
             col.ok(rule_id, "%s:no-ambiguous-comparison" % body.q, body.where(), "no start-vs-(end % capacity) decision")
 
 
+def rule_r9(facts, col, rule_id="C02.R9"):
+    """the commit looks at EVERY tag it was handed: the loop that stores tags is left only when its iterator is exhausted (a
+    `break` on the first tag beyond the committed samples silently drops every later tag of the list, in whatever order the
+    caller passed them)"""
+    for body in facts.bodies:
+        if body.kind == "closure" or body_role(facts, body) != "commit":
+            continue
+        ins = [bb for b2, bb, t, kind in tag_map_calls(facts) if b2 is body and kind == "insert"]
+        if not ins:
+            continue
+        comp = scc_of(body, ins[0])
+        key = "%s:tag-loop" % body.q
+        if comp is None:
+            col.ok(rule_id, key, body.where(ins[0]), "tags not stored in an explicit loop of this body: nothing to leave early")
+            continue
+        nexts = [b for b, t in body.calls_to("std::iter::Iterator::next") if b in comp]
+        bad = []
+        for (u, v) in loop_exits(body, comp):
+            okx = False
+            tu = body.term(u)
+            if tu["k"] == "switch":
+                e = switch_discr_expr(body, u)
+                if e.k == "discr":
+                    x = peel(e.a, through_try=False)
+                    if x is not None and x.k == "call" and x.bb in nexts and variant_target(body, u, 0, 2) == v:
+                        okx = True
+            if tu["k"] in ("assert", "call") and body.term(v)["k"] in ("unreachable",):
+                okx = True
+            if tu["k"] == "call" and tu.get("u") == v:
+                okx = True      # unwind edge
+            if not okx:
+                bad.append(u)
+        if bad:
+            col.bad(rule_id, key, body.where(bad[0]),
+                    "the loop that stores a commit's tags can be left before its iterator is exhausted: every tag after that point "
+                    "in the caller's list - also tags on committed samples - is dropped", {})
+        else:
+            col.ok(rule_id, key, body.where(ins[0]), "tag loop left only on iterator exhaustion")
+
+
 UNSTABLE_SORTS = {"sort_unstable", "sort_unstable_by", "sort_unstable_by_key", "select_nth_unstable", "select_nth_unstable_by",
                   "select_nth_unstable_by_key", "reverse", "swap", "rotate_left", "rotate_right", "dedup", "dedup_by_key", "dedup_by"}
 STABLE_SORTS = {"sort", "sort_by", "sort_by_key", "sort_by_cached_key"}
@@ -386,6 +426,8 @@ def run(ctx):
     rule_r3(facts, ctx)
     rule_r4(facts, ctx)
     rule_r5(facts, ctx)
+    rule_r9(facts, ctx)
+    ctx.floor("C02.R9", 1, "tag-storing loop of the commit body")
     rule_r8(facts, ctx)
     ctx.floor("C02.R8", 1, "Buffer::read_buf")
     rule_r7(facts, ctx)
